@@ -60,6 +60,22 @@ def main(repo="/repo", outdir=None):
         if old != res["text"]:
             open(path, "w").write(res["text"])
         report[name] = {"errors": res["errors"], "changed": old != res["text"], "targets": res["targets"]}
+    import py2wrap
+    importlib.reload(py2wrap)
+    for name, res in py2wrap.generate(repo).items():  # the argument-checking wrapper as a whole + __init_subclass__ (C13)
+        path = os.path.join(outdir, name + ".lean")
+        old = open(path).read() if os.path.exists(path) else None
+        if old != res["text"]:
+            open(path, "w").write(res["text"])
+        report[name] = {"errors": res["errors"], "changed": old != res["text"], "targets": res["targets"]}
+    import py2perm
+    importlib.reload(py2perm)
+    for name, res in py2perm.generate(repo).items():  # Permute: exception-valued __init__ and the four methods (C01 / C07 / C11)
+        path = os.path.join(outdir, name + ".lean")
+        old = open(path).read() if os.path.exists(path) else None
+        if old != res["text"]:
+            open(path, "w").write(res["text"])
+        report[name] = {"errors": res["errors"], "changed": old != res["text"], "targets": res["targets"]}
     import py2ast, targets_ast
     importlib.reload(py2ast); importlib.reload(targets_ast)
     res = py2ast.generate_ast(repo, targets_ast.SPECS)
